@@ -394,12 +394,12 @@ func (e *Engine) runHarness(h *ssa.Function) *SchedInfo {
 					live++
 				}
 			}
-			fmt.Fprintf(os.Stderr, "step %d: resting%s firing=%d terms=%d instrs=%d\n", t, sb.String(), live, TS.next, e.instrs)
+			fmt.Fprintf(os.Stderr, "step %d: resting%s firing=%d terms=%d instrs=%d feas=%d cut=%d unk=%d\n", t, sb.String(), live, TS.next, e.instrs, e.feasN, e.feasCut, e.feasUnk)
 			if os.Getenv("VERIF_DUMPREST") != "" && fmt.Sprint(t) == os.Getenv("VERIF_DUMPREST") {
 				for _, g := range e.gors {
 					for _, k := range g.order {
 						c := g.rest[k]
-						fmt.Fprintf(os.Stderr, "   REST g%d %s ph=%d key=%s\n", g.idx, e.posOf(c), c.phase, k)
+						fmt.Fprintf(os.Stderr, "   REST g%d %s ph=%d fn=%s(%p) depth=%d key=%s\n", g.idx, e.posOf(c), c.phase, c.top().fn.String(), c.top().fn, len(c.stack), k)
 					}
 				}
 			}
